@@ -1,7 +1,8 @@
 (* C16: knut transcode -v V emits a balanced, self-consistent beancount ledger.
    model output = the bytes of Model.CliTranscode.transcode_cmd; spec verdict = the extracted
    Spec.BeancountSpec.c16_verdict (reader + balanced/chronological/open-close checks +
-   completeness against the journal) evaluated on the BINARY's stdout. *)
+   completeness against the journal) with the mark-to-market clause of Spec.BeancountMtmSpec (no value
+   adjustment lost or doubled: account totals = market value) evaluated on the BINARY's stdout. *)
 open Drv_util
 open Drv_journal
 
@@ -27,7 +28,10 @@ let () =
     let spec =
       if not roundtrip_ok then "FAIL:reader-roundtrip reading the model's text does not give back the model's entries"
       else match prefix_strip "OK " obs with
-        | Some s -> string_of_str (K.c16_verdict ds (str_of_string (unesc s)))
+        | Some s ->
+          (match v with
+           | Some vc -> string_of_str (K.c16_verdict_mtm ds vc (str_of_string (unesc s)))
+           | None -> string_of_str (K.c16_verdict ds (str_of_string (unesc s))))
         | None ->
           if obs = "ERR" then "ok"                       (* journal or prices rejected: outside C16 *)
           else if v = None && prefix_strip "PANIC" obs <> None then "ok"   (* no -v: C14's finding, see findings/ *)
